@@ -238,6 +238,7 @@ type HVCase struct {
 	Ty   string          `json:"ty"`
 	V    json.RawMessage `json:"v"`
 	Src  string          `json:"src"`
+	Two  bool            `json:"two"` // response rows: the field also carries an annotation that cannot deliver on a response (api.query), listed first; OmitHttpMappingErrors
 }
 
 func hvScalarText(ty string, v []byte) string {
@@ -385,6 +386,9 @@ func (c *c17) hrv(hc HVCase) {
 		die("hrv value: %v: %s", err, hc.V)
 	}
 	anno := map[string]string{"header": `api.header = "x-val"`, "cookie": `api.cookie = "ck"`}[hc.Src]
+	if hc.Two {
+		anno = `api.query = "q", ` + anno
+	}
 	idl := fmt.Sprintf("namespace go hv\nstruct Resp {\n  1: %s f (%s)\n  2: string msg\n  3: i32 n\n}\nservice S { Resp M(1: Resp r) }\n", tyw, anno)
 	desc, ok := c.descs[idl]
 	if !ok {
@@ -407,7 +411,10 @@ func (c *c17) hrv(hc HVCase) {
 		doc = append(doc, v[8-w:]...)
 	}
 	doc = append(doc, 11, 0, 2, 0, 0, 0, 1, 'm', 8, 0, 3, 0, 0, 0, 7, 0)
-	ev := map[string]interface{}{"ev": "HRV", "ty": hc.Ty, "v": v, "dst": hc.Src, "st": "ok", "gotv": B{}, "inbody": true, "others": false, "txt": "", "case": hc}
+	if v == nil {
+		v = B{}
+	}
+	ev := map[string]interface{}{"ev": "HRV", "ty": hc.Ty, "v": v, "dst": hc.Src, "two": hc.Two, "st": "ok", "gotv": B{}, "inbody": true, "others": false, "txt": "", "case": hc}
 	func() {
 		defer func() {
 			if e := recover(); e != nil {
@@ -416,7 +423,7 @@ func (c *c17) hrv(hc HVCase) {
 		}()
 		resp := dhttp.NewHTTPResponse()
 		ctx := context.WithValue(context.Background(), conv.CtxKeyHTTPResponse, resp)
-		cv := t2j.NewBinaryConv(conv.Options{EnableHttpMapping: true})
+		cv := t2j.NewBinaryConv(conv.Options{EnableHttpMapping: true, OmitHttpMappingErrors: hc.Two})
 		out, err := cv.Do(ctx, desc, doc)
 		if err != nil {
 			ev["st"] = "err"
